@@ -61,6 +61,8 @@ def run(p, xs, resets=(), seed=0):
     step = min(100, round(p["sample_period"] * W))
     bins = int(np.floor(np.sqrt(W)))
     X = np.array(xs, dtype=float)
+    from .containers import feeder_of
+    feeder = feeder_of(p, "array2d")
     ev = []
     # the harness mirrors the documented protocol only to know WHICH ranges to hand to the kernel; the
     # specification re-derives these ranges and rejects the trace if they differ
@@ -76,7 +78,7 @@ def run(p, xs, resets=(), seed=0):
         np.random.seed((seed + t) % (2 ** 32))
         err = None
         try:
-            det.update(X[t - 1].reshape(1, -1))
+            det.update(feeder.row(X[t - 1].tolist()))
         except Exception as ex:  # noqa
             err = ex
         k = {"npcs": 0, "score": "0.0", "ref": ref or none, "build": build or none, "test": none}
